@@ -64,6 +64,21 @@ CHECKS.update({
         engine="E4-scenarios + E3-trace", ref="DESIGN.md 6 C08"),
 })
 
+CHECKS.update({
+    "C05": dict(
+        text="Timer goroutine, Reset('Timeout'), HandleReset (cancel flows, handler mutex, shutdown, generation++, Clear) and the release/FastInvoke goroutines that outlive the answer are modelled in spec/Rapid.tla. Scenarios stall a party in every phase {extension before register / before next, runtime before first next / before response / before returning to next, extension after the event} with 0..2 extensions, followed by a recovery invocation; a sweep posts the response at offsets around the expiry. TLC validates the stamped traces: the timer step is allowed only after the function timeout has elapsed and - strict timer rule - only when no step of the emulator itself is pending, the answer comes after the teardown steps and within timeout + reset allowance, the next invocation is served by newly exec'd processes.",
+        note=SCEN_NOTE + " Time bounds are one-sided with slack (lower -2 ms, upper +1500 ms); the expiry race is sampled by offset, not enumerated.", technique="TLA+ spec + TLC validation of stamped full-stack traces (stall-phase enumeration, offset sweep)",
+        engine="E4-scenarios + E3-trace", ref="DESIGN.md 6 C05"),
+    "C09": dict(
+        text="shutdown() is a sub-program of spec/Rapid.tla (kill-at-once without agents, TERM then conditional KILL at 30%, SHUTDOWN renderer and release of subscribers, kill of non-subscribers, kill at the deadline, wait for exit notifications or the 2 s grace). Scenarios enumerate runtime {exits on TERM, ignores TERM, already exited, never started} x 0..2 extensions {subscribed & exits, subscribed & ignores, subscribed & not polling, unsubscribed, already exited, failed to launch} x trigger {timeout reset, failure reset, explicit reset, shutdown} (feasible combinations; quick = stratified sample) with a fake supervisor that can delay exit notifications. TLC validates the millisecond-stamped traces with integer arithmetic in the trace specification (TERM before KILL, 30% rule, deadline rule, return after reaping and within deadline + grace + slack).",
+        note=SCEN_NOTE + " Lower time bounds -3 ms, upper bounds +1500 ms.", technique="TLA+ spec + TLC validation of stamped full-stack traces (behaviour product enumeration)",
+        engine="E4-scenarios + E3-trace", ref="DESIGN.md 6 C09"),
+    "C15": dict(
+        text="Platform lifecycle events are outputs (history sequence tel) of the actions of spec/Rapid.tla that the code emits them in, including the deferred senders of doRuntimeDomainInit in LIFO order, phase tags, first-fault error types and the extension lines with state and subscriptions at emission time. A recording EventsAPI puts them into the same trace as the actors' events; this check re-runs samples of the scenario families of C03-C09 with the lifecycle events bound: the i-th recorded event must equal the i-th event the specification emitted on the behaviour that explains the rest of the trace.",
+        note=SCEN_NOTE, technique="TLA+ spec + TLC trace validation with the lifecycle-event history bound",
+        engine="E4-scenarios + E3-trace", ref="DESIGN.md 6 C15"),
+})
+
 NA = {
 }
 
